@@ -164,3 +164,35 @@ if __name__ == "__main__":
     names = sys.argv[1:] or ["F1", "F2", "F3", "F4", "F5", "F6", "F7", "F8"]
     for n in names:
         print(n, "DEFECT PRESENT" if globals()[n]() else "ok")
+
+
+# --------------------------------------------------------------------------- F9 (C08)
+# A service task whose teardown_action is a callable OBJECT (instance of a class with __call__)
+# was never stopped: finalize_service_task called callable_name(teardown_action) for a log line
+# before its try block; callable objects have no __qualname__, so AttributeError escaped the
+# finalizer, the action was never invoked and the root task group waited for the task for ever.
+# Found by an independent seeding agent (round 4, C15) as a side observation; reported by
+# C08.R2 once attribute loads of __qualname__/__name__ counted as may-raise; repaired in
+# /repo 94b93df (callable_name falls back to the object's class).
+def demo_f9():
+    import anyio
+    from asphalt.core import Context
+
+    class Stopper:
+        def __init__(self, ev):
+            self.ev = ev
+
+        def __call__(self):
+            self.ev.set()
+
+    async def main():
+        ev = anyio.Event()
+
+        async def service():
+            await ev.wait()
+
+        with anyio.fail_after(2):  # pre-fix: the block only ends because of this timeout
+            async with Context() as ctx:
+                await ctx.start_service_task(service, "svc", teardown_action=Stopper(ev))
+
+    anyio.run(main)
